@@ -434,7 +434,12 @@ class Interp:
             elif k == "setblock":
                 buf = []
                 self.run(s[2], Scope(scope), buf, st)
-                self.assign(s[1], self.wrap_markup("".join(buf)), scope, st, frame_top)
+                v = self.wrap_markup("".join(buf))
+                for fname in (s[3] if len(s) > 3 else []):
+                    v = self.apply_filter(fname, v, [], {})
+                if len(s) > 3 and s[3]:
+                    v = self.wrap_markup(v)
+                self.assign(s[1], v, scope, st, frame_top)
             elif k == "with":
                 vals = [(n, self.ev(e, scope, st)) for n, e in s[1]]
                 inner = Scope(scope)
